@@ -6,7 +6,8 @@ data, nesting depth, branch lengths.
 Actors: a malicious peer that writes the bytes; a receiving node that hands
 them to the library the way a node does (BIP157 client: `CFilter` payload ->
 `BasicBlockFilter` -> `match`; SPV client: `merkle_proof.verify`; a wallet:
-`dleq.verify_proof`, `bms.verify`). Each call runs under a per-call CPU
+`dleq.verify_proof`, `bms.verify`; a restorer: SLIP39 share sets whose members
+are each well-formed and do not belong together). Each call runs under a per-call CPU
 budget.
 
 Invariants (C19)
@@ -166,6 +167,49 @@ class memory_budget:
         resource.setrlimit(resource.RLIMIT_AS, self.old)
 
 
+def _shares(ctx: Ctx) -> None:
+    """A malicious custodian hands back SLIP39 shares that are each well-formed (valid RS1024 checksum, fields in
+    range -- written with the library's own share writer) and do not belong together: lengths, thresholds, counts,
+    identifiers, indexes that disagree between shares or between groups, in a drawn order."""
+    from btclib.mnemonic import slip39  # noqa: PLC0415
+
+    ch = ctx.ch
+    base = {
+        "identifier": ch.draw(1 << 15, "sh.id"), "extendable": bool(ch.draw(2, "sh.ext")), "iteration_exponent": ch.draw(3, "sh.exp"),
+        "group_threshold": 1 + ch.draw(3, "sh.gt"), "group_count": 0, "member_threshold": 1 + ch.draw(3, "sh.mt"),
+    }
+    base["group_count"] = base["group_threshold"] + ch.draw(3, "sh.gc")
+    n = 1 + ch.draw(5, "sh.n")
+    mnemonics: list[str] = []
+    for k in range(n):
+        f = dict(base)
+        f["group_index"] = ch.draw(min(16, f["group_count"] + 1), "sh.gi")
+        f["member_index"] = ch.draw(4, "sh.mi")
+        f["value"] = ch.nbytes(ch.pick([16, 16, 32, 32, 18, 20, 24, 64, 34], "sh.len"), "sh.value")
+        for name, draw in (  # one field in three disagrees with the rest of the set
+            ("identifier", lambda: ch.draw(1 << 15, "sh.id2")), ("extendable", lambda: bool(ch.draw(2, "sh.ext2"))), ("iteration_exponent", lambda: ch.draw(16, "sh.exp2")),
+            ("group_threshold", lambda: 1 + ch.draw(4, "sh.gt2")), ("group_count", lambda: 1 + ch.draw(16, "sh.gc2")), ("member_threshold", lambda: 1 + ch.draw(16, "sh.mt2")),
+        ):
+            if ch.draw(9, "sh.odd?") == 0:
+                f[name] = draw()
+        try:
+            mnemonics.append(slip39.mnemonic_from_share(slip39.Share(**f)))
+        except BTClibException:
+            ctx.probe("share-writer-refused")  # out of the format's range: not a share anybody can hand over
+    if ch.draw(3, "sh.dup") == 0 and mnemonics:
+        mnemonics.append(mnemonics[ch.draw(len(mnemonics), "sh.dupwhich")])
+    mnemonics = ch.shuffled(mnemonics, "sh.order")
+    ctx.fault("hostile-share-set", f"n={len(mnemonics)}")
+    ctx.log("shares", len(mnemonics), base["group_threshold"], base["group_count"])
+    if not mnemonics:
+        return
+    out = _call(ctx, "slip39.master_secret_from_mnemonics/hostile-set", lambda: slip39.master_secret_from_mnemonics(mnemonics, ch.pick(["", "TREZOR", "pass"], "sh.pw")))
+    ctx.probe("hostile-share-set-" + ("recovered" if out is not None else "refused"))
+    _call(ctx, "slip39.mxprv_from_mnemonics/hostile-set", lambda: slip39.mxprv_from_mnemonics(mnemonics))
+    for m in mnemonics[:2]:
+        _call(ctx, "slip39.share_from_mnemonic/hostile-set", lambda m=m: slip39.share_from_mnemonic(m))
+
+
 def run(ctx: Ctx) -> None:
     with memory_budget():
         _run(ctx)
@@ -174,9 +218,9 @@ def run(ctx: Ctx) -> None:
 def _run(ctx: Ctx) -> None:
     old = signal.signal(signal.SIGVTALRM, _on_vtalrm)
     try:
-        part = ctx.cfg.get("part") or ctx.ch.pick(["filters", "filters", "proofs", "signatures"], "part")
+        part = ctx.cfg.get("part") or ctx.ch.pick(["filters", "filters", "proofs", "signatures", "shares", "shares"], "part")
         ctx.state(part)
-        {"filters": _filters, "proofs": _proofs, "signatures": _signatures}[part](ctx)
+        {"filters": _filters, "proofs": _proofs, "signatures": _signatures, "shares": _shares}[part](ctx)
     finally:
         signal.setitimer(signal.ITIMER_VIRTUAL, 0)
         signal.signal(signal.SIGVTALRM, old)
